@@ -106,29 +106,39 @@ fn any_notes() -> ([Note; 12], usize) {
     ], len)
 }
 
-// @harness prop=C07 tier=quick timeout=1800 unwindset=find_nearest_note:4,13
-// @about every state a history can reach, built through the public API: any initial scale (all 4095), a first conversion of any f32 v1 (this is what the cache can hold: every later conversion leaves a record of the same form), then an ARBITRARY scale edit -- forbid(any slice of 0..=12 notes) followed by allow(any slice of 0..=12 notes), either may be empty -- then a conversion of any f32 v2 (incl. v2 == v1, NaN, +-inf): the pitch class reported by BOTH conversions is allowed in the scale in force at that call (read back with is_allowed); in every octave
-#[kani::proof]
-#[kani::unwind(14)]
-fn c07_convert_never_forbidden() {
-    let mut q = any_quantizer(false);
-    let v1: f32 = kani::any();
-    let c1 = q.convert(v1);
-    vassert!(q.is_allowed(Note::new(c1.note_num % 12)), "C07/convert/pitch-class-allowed-now");
-    let (f_notes, f_len) = any_notes();
-    let (a_notes, a_len) = any_notes();
-    if f_len >= 1 {
-        q.forbid(&f_notes[..f_len]);
-    }
-    q.allow(&a_notes[..a_len]);
-    let v2: f32 = kani::any();
-    let c2 = q.convert(v2);
-    vassert!(q.is_allowed(Note::new(c2.note_num % 12)), "C07/convert/pitch-class-allowed-after-any-scale-edit");
-    vassert!(q.allowed != 0 && q.allowed <= 0x0fff, "C07/scale/non-empty-12-bits");
-    vcover!(c1.note_num >= 12 && v1 == v2 && c2.note_num != c1.note_num, "witness: same input above octave 0, note had to change");
-    vcover!(f_len == 12 && c1.note_num >= 24, "witness: forbid tried to empty the scale, octave >= 2");
-    vcover!(v2.is_nan(), "witness: NaN input");
-    vcover!(c2.note_num >= 121, "witness: a note above 10 V");
+// @family prop=C07 name=c07_convert_never_forbidden macro=c07_convert_never_forbidden n=4 quick=0,1,2,3 thorough=all timeout=1800 unwindset=find_nearest_note:4,13
+// @about every state a history can reach, built through the public API; slice = quarter of the SECOND input's range (v2 < 2.5 incl. negatives, -inf and NaN / [2.5,5) / [5,7.5) / >= 7.5 incl. +inf), the four slices together cover every f32: any initial scale (all 4095), a first conversion of any f32 v1 (this is what the cache can hold: every later conversion leaves a record of the same form), then an ARBITRARY scale edit -- forbid(any slice of 0..=12 notes) followed by allow(any slice of 0..=12 notes), either may be empty -- then a conversion of v2 (incl. v2 == v1): the pitch class reported by BOTH conversions is allowed in the scale in force at that call (read back with is_allowed); in every octave
+macro_rules! c07_convert_never_forbidden {
+    ($name:ident, $k:expr) => {
+        #[kani::proof]
+        #[kani::unwind(14)]
+        fn $name() {
+            let mut q = any_quantizer(false);
+            let v1: f32 = kani::any();
+            let c1 = q.convert(v1);
+            vassert!(q.is_allowed(Note::new(c1.note_num % 12)), "C07/convert/pitch-class-allowed-now");
+            let (f_notes, f_len) = any_notes();
+            let (a_notes, a_len) = any_notes();
+            if f_len >= 1 {
+                q.forbid(&f_notes[..f_len]);
+            }
+            q.allow(&a_notes[..a_len]);
+            let v2: f32 = kani::any();
+            let k: u32 = $k;
+            if k == 0 {
+                kani::assume(!(v2 >= 2.5));
+            } else if k == 3 {
+                kani::assume(v2 >= 7.5);
+            } else {
+                kani::assume(v2 >= 2.5 * k as f32 && v2 < 2.5 * (k + 1) as f32);
+            }
+            let c2 = q.convert(v2);
+            vassert!(q.is_allowed(Note::new(c2.note_num % 12)), "C07/convert/pitch-class-allowed-after-any-scale-edit");
+            vassert!(q.allowed != 0 && q.allowed <= 0x0fff, "C07/scale/non-empty-12-bits");
+            vcover!(v1 == v2 && c2.note_num != c1.note_num, "witness: same input, note had to change");
+            vcover!(f_len == 12, "witness: forbid tried to empty the scale");
+        }
+    };
 }
 
 // @harness prop=C17,C19 tier=quick timeout=900 unwindset=find_nearest_note:4,13
